@@ -119,6 +119,7 @@ def run(F, rep, tier):
     feel_equality_rule(F, rep)
     arity_rule(F, rep)
     search_direction_rule(F, rep)
+    no_trim_rule(F, rep)
     adt = F.adts.get(BIF)
     if adt is None:
         rep.missing_anchor(r1, BIF)
@@ -534,3 +535,34 @@ def search_direction_rule(F, rep):
         else:
             rep.ok(rid, "%s:direction" % short, "forward search only")
     rep.floor(rid, "first-occurrence built-ins", n, 5)
+
+
+def no_trim_rule(F, rep):
+    """R08.11: none of the string functions of DMN 1.3 (10.3.4.3: substring .. replace, upper case, lower case ..) removes white space: `upper case(" a ")` is " A ".  A
+    core built-in function that applies `str::trim*` to the text it returns changes every argument with leading / trailing white space - positive evidence, per function."""
+    rid = rep.rule("R08.11", "no core string built-in trims the text it returns (the specification's string functions keep leading and trailing white space)")
+    import re
+    from facts import find_hir
+    n = 0
+    for name, h in sorted(F.hir.items()):
+        if not name.startswith("dmntk_feel_evaluator::bifs::core::") or "{closure" in name or h.get("kind") not in ("fn", "method"):
+            continue
+        strings = find_hir(h["body"], lambda x: x.get("k") == "Call" and (x.get("callee") or "").endswith("values::Value::String"))
+        if not strings:
+            continue
+        n += 1
+        trims = []
+        for c, _ in strings:
+            trims += find_hir(c, lambda x: x.get("k") == "MethodCall" and re.search(r"core::str::<impl str>::trim(_start|_end|_matches|_start_matches|_end_matches)?$", x.get("callee") or ""))
+        # a local bound to a trimmed text and returned as the string
+        for st, _ in find_hir(h["body"], lambda x: x.get("k") == "LetStmt" and "e" in x and x["p"].get("k") == "Bind"):
+            tr = find_hir(st["e"], lambda x: x.get("k") == "MethodCall" and re.search(r"core::str::<impl str>::trim(_start|_end|_matches|_start_matches|_end_matches)?$", x.get("callee") or ""))
+            if tr and any(find_hir(c, lambda y: y.get("k") == "Path" and y.get("res") == "local" and y.get("name") == st["p"]["name"]) for c, _ in strings):
+                trims += tr
+        key = "trim:%s" % name.split("::")[-1]
+        if trims:
+            rep.violation(rid, key, "%s trims the text it returns (`%s`, line %s): an argument with leading or trailing white space loses it, which none of the specification's string "
+                          "functions does" % (name.split("::")[-1], trims[0][0].get("method"), trims[0][0].get("l")), "%s:%s" % (h["file"], trims[0][0].get("l")))
+        else:
+            rep.ok(rid, key, "returns its text untrimmed")
+    rep.floor(rid, "core built-ins returning a string", n, 8)
